@@ -6,6 +6,7 @@ the model; its properties come from C03 through the certificate `Ume.umeCert 0`.
 Helper lemmas: Lemmas/Align.lean, Lemmas/Umeyama.lean.
 -/
 import EvoModel.Lemmas.Align
+import EvoModel.Lemmas.UmeyamaUnique
 namespace Evo.C04
 open Evo Evo.Ume Evo.Align
 
@@ -145,18 +146,36 @@ theorem align_rmse_optimal (n : Int) (ws : Bool) (R : M3 Rat) (t : V3 Rat) (s : 
     have := optimal_rigid (cert_of_umeCert hc) hlen hne R' t' hR'
     rwa [hs] at this
 
-/-- **aligning an already aligned trajectory cannot improve it** (`_partial`: the identity attains
-the minimum for the aligned estimate, so a second alignment returns a transformation with the
-same residual as the identity; that it *is* the identity needs uniqueness of the minimiser, which
-is proved only for noise-free data — `C03.umeyama_noise_free`) -/
-theorem align_twice_identity_partial (x y : List (V3 Rat)) (R : M3 Rat) (t : V3 Rat) (s : Rat)
-    (hc : umeCert 0 true x y R t s = true) (hlen : x.length = y.length) (hne : x ≠ [])
-    (R' : M3 Rat) (t' : V3 Rat) (s' : Rat) (hR' : IsRot R') (hs' : 0 ≤ s') :
-    resid (x.map (simApply R t s)) y M3.one V3.zero 1 ≤ resid (x.map (simApply R t s)) y R' t' s' := by
-  rw [← sse_eq_resid_id, sse_map, resid_map_comp]
-  have hc' := cert_of_umeCert hc
-  have hs : 0 < s := by have := hc'.scale; simp only [if_true] at this; exact this.2
-  exact optimal_sim hc' hlen hne _ _ _ (hR'.mul hc'.rot) (mul_nonneg hs' hs.le)
+/-- **aligning an already aligned trajectory again is the identity**: `(R, t, s)` certified for the
+point sets `(x, y)` in mode `ws`; the aligned points are `x' = s·R·x + t` (`s = 1` in rigid mode); a
+second alignment `(R₂, t₂, s₂)` certified for `(x', y)` in the same mode, under the uniqueness
+condition `certPD` (decidable; see `C03.umeyama_unique`), is exactly `(I, 0, 1)`. -/
+theorem align_twice_identity (ws : Bool) (x y : List (V3 Rat)) (R R₂ : M3 Rat) (t t₂ : V3 Rat) (s s₂ : Rat)
+    (h1 : umeCert 0 ws x y R t s = true)
+    (h2 : umeCert 0 ws (x.map (simApply R t s)) y R₂ t₂ s₂ = true)
+    (hpd : certPD (x.map (simApply R t s)) y R₂ = true)
+    (hlen : x.length = y.length) (hne : x ≠ []) :
+    R₂ = M3.one ∧ t₂ = V3.zero ∧ s₂ = 1 := by
+  have c1 := cert_of_umeCert h1
+  have c2 := cert_of_umeCert h2
+  have hlen' : (x.map (simApply R t s)).length = y.length := by simpa using hlen
+  have hne' : x.map (simApply R t s) ≠ [] := by simpa using hne
+  have hle : resid (x.map (simApply R t s)) y M3.one V3.zero 1 ≤ resid (x.map (simApply R t s)) y R₂ t₂ s₂ := by
+    rw [← sse_eq_resid_id, sse_map, resid_map_comp]
+    cases ws with
+    | true =>
+      have hs : 0 < s := by have := c1.scale; simp only [if_true] at this; exact this.2
+      have hs2 : 0 < s₂ := by have := c2.scale; simp only [if_true] at this; exact this.2
+      exact optimal_sim c1 hlen hne _ _ _ (c2.rot.mul c1.rot) (mul_nonneg hs2.le hs.le)
+    | false =>
+      have hs : s = 1 := by have := c1.scale; simpa using this
+      have hs2 : s₂ = 1 := by have := c2.scale; simpa using this
+      rw [hs2, hs, mul_one]
+      have := optimal_rigid c1 hlen hne (R₂.mul R) (V3.add (V3.smul 1 (R₂.mulVec t)) t₂) (c2.rot.mul c1.rot)
+      rwa [hs] at this
+  have hcls : if ws = true then (0:Rat) ≤ 1 else (1:Rat) = 1 := by cases ws <;> simp
+  obtain ⟨e1, e2, e3⟩ := unique_of_cert c2 (isPD_of_certPD c2 hpd) hlen' hne' M3.one V3.zero 1 IsRot.one hcls hle
+  exact ⟨e1.symm, e2.symm, e3.symm⟩
 
 end rat
 
@@ -306,5 +325,12 @@ def oRef : List (Pose Rat) :=
    ⟨M3.one, ⟨7, 7, 7⟩⟩]
 example : umeCert 0 true (alignInputs 6 (oEst ++ [⟨M3.one, ⟨9, 9, 9⟩⟩]) oRef).1 (alignInputs 6 (oEst ++ [⟨M3.one, ⟨9, 9, 9⟩⟩]) oRef).2
     M3.one ⟨0, 0, 0⟩ (15/14) = true := by decide +kernel
+
+/-- hypotheses of `align_twice_identity` are satisfiable: octahedron aligned with scale 15/14, the
+second alignment `(I, 0, 1)` is certified for the aligned points and `certPD` holds -/
+example : umeCert 0 true ((alignInputs 6 oEst oRef).1.map (simApply M3.one ⟨0, 0, 0⟩ (15/14))) (alignInputs 6 oEst oRef).2
+      M3.one ⟨0, 0, 0⟩ 1 = true
+    ∧ certPD ((alignInputs 6 oEst oRef).1.map (simApply M3.one ⟨0, 0, 0⟩ (15/14))) (alignInputs 6 oEst oRef).2 M3.one = true := by
+  decide +kernel
 
 end Evo.C04
